@@ -51,7 +51,7 @@ def run(chk):
     extra += S.random_strings(rng, S.ST, 300 if quick else 20000, 4, 25)
     S.standard(chk, sc, INV, CLAUSES,
                'strict ok => tolerant identical; tolerant ok => output = input + inserted closers only',
-               extra_sources=extra, runs='B')
+               extra_sources=extra, runs='B', simulate_words=S.ST + S.SC)
     # clause (b): one closer lost => strict reports an error, tolerant succeeds
     damaged = closer_deletions(chk, quick)
     res = S.explore(chk, 'closerloss', [], invariants=['C07b_CloserLossRepaired', 'C07c_OnlyClosers'], sources=damaged, timeout=3000, runs='B')
